@@ -619,6 +619,35 @@ def replace_slot(cls_short, slot):
     return None
 
 
+def rowsource_eq(cls_short=None):
+    """C16: replace_table decides with `source == current_table`; for every kind of row source the comparison with a
+    table that does not occur must be the bool False, and replace_table(absent, new) must change nothing"""
+    from . import QUERY_CLASSES, Table
+    a, b, base = Table("a"), Table("b"), Table("base")
+    absent, new = Table("zz_absent"), Table("zz_new")
+    for qc in QUERY_CLASSES:
+        q1, q2 = qc.from_(a).select(a.id), qc.from_(b).select(b.id)
+        sources = [("table", a), ("aliased table", a.as_("x")), ("sub-query", q1.as_("s")), ("union", (q1 + q2).as_("u")),
+                   ("union all", q1.union_all(q2).as_("u")), ("intersect", q1.intersect(q2).as_("u")),
+                   ("cte", pk.AliasedQuery("c", q1))]
+        for label, src in sources:
+            if cls_short and type(src).__name__ != cls_short.split(".")[-1]:
+                continue
+            r = src == absent
+            if r is not False:
+                return f"{qc.__name__}: ({label}) == Table('zz_absent') is {type(r).__name__} {bool(r)!r}, not False"
+            if label == "cte":
+                continue
+            for mk_label, mk in (("from", lambda s: qc.from_(s).select("id")),
+                                 ("join", lambda s: qc.from_(base).join(s).on(base.id == s.id).select(base.id))):
+                q = mk(src)
+                before, after = str(q), str(q.replace_table(absent, new))
+                if before != after:
+                    return (f"{qc.__name__}: {label} as {mk_label} source: replace_table(zz_absent, zz_new) changed "
+                            f"{before!r} into {after!r}")
+    return None
+
+
 def _lex_literal(sql, q="'", mysql=False):
     """reference lexer: one quoted literal spanning all of sql -> decoded text, else None"""
     if len(sql) < 2 or sql[0] != q:
